@@ -603,9 +603,46 @@ def lmtd_ts_suite(ctx):
     ctx.suite("lmtd_ts", cases=len(cases), agree=agree, mismatch=0, property_false=bad, fragile_skipped=0)
 
 
+def lmtd_batch_suite(ctx):
+    """compute_LMTD_from_dts on lists / arrays of end differences: element k of the answer must be what the scalar call gives for pair k
+    (batches that mix equal, nearly equal and clearly different pairs)."""
+    import numpy as np
+    _, hx = impl()
+    n = ctx.budget(40, 600)
+    pool = [(20.0, 20.0), (20.0, 20.0000001), (30.0, 10.0), (80.0, 5.0), (5.0, 80.0), (12.5, 12.5), (100.0, 100.001001005), (0.125, 1000.0), (7.0, 7.0)]
+    batches = [[(30.0, 10.0), (20.0, 20.0), (80.0, 5.0)], [(20.0, 20.0), (20.0, 20.0)], [(30.0, 10.0), (80.0, 5.0)]]
+    for _ in range(n):
+        batches.append([ctx.rng.choice(pool) if ctx.rng.random() < 0.6 else gen_lmtd_pair(ctx.rng) for _ in range(ctx.rng.randint(2, 5))])
+    agree = bad = 0
+    for b in batches:
+        ok_pairs = [(x, y) for x, y in b if lmtd_call(x, y)[0] is not None]
+        if len(ok_pairs) < 2:
+            continue
+        ctx.evaluations += 1
+        ctx.count("lmtd_batch_list" if len(ok_pairs) % 2 else "lmtd_batch_array")
+        ctx.nontrivial_case(("lmtd_batch", tuple(ok_pairs)))
+        xs, ys = [p[0] for p in ok_pairs], [p[1] for p in ok_pairs]
+        want = [lmtd_call(x, y)[0] for x, y in ok_pairs]
+        try:
+            got = hx.compute_LMTD_from_dts(xs, ys) if len(ok_pairs) % 2 else hx.compute_LMTD_from_dts(np.array(xs), np.array(ys))
+            got = [float(g) for g in np.atleast_1d(got)]
+            err = None
+        except Exception as e:  # noqa: BLE001
+            got, err = None, f"{type(e).__name__}: {e}"
+        if got is not None and len(got) == len(want) and all(g == w for g, w in zip(got, want)):
+            agree += 1
+            continue
+        bad += 1
+        if bad <= 2:
+            ctx.fail("lmtd-batch-differs", "compute_LMTD_from_dts on a batch does not return, element by element, what it returns for each pair alone",
+                     input=dict(delta_T1=xs, delta_T2=ys), impl_output=dict(batch=got, error=err, pair_by_pair=want), suite="lmtd_batch",
+                     predicate="batch[k] == scalar(pair k) (bit-identical)")
+    ctx.suite("lmtd_batch", cases=agree + bad, agree=agree, mismatch=0, property_false=bad, fragile_skipped=0)
+
+
 def run(ctx):
     import time
-    for name, fn in (("dispatch", dispatch_suite), ("samples", samples_suite), ("sweep", sweep_suite), ("lmtd", lmtd_suite), ("lmtd_ts", lmtd_ts_suite)):
+    for name, fn in (("dispatch", dispatch_suite), ("samples", samples_suite), ("sweep", sweep_suite), ("lmtd", lmtd_suite), ("lmtd_ts", lmtd_ts_suite), ("lmtd_batch", lmtd_batch_suite)):
         t0 = time.time()
         try:
             fn(ctx)
